@@ -730,16 +730,14 @@ def worker_main(specfile, outfile):
     spec = json.loads(Path(specfile).read_text())
     os.environ["XPM_WORKDIR"] = str(Path(spec["base"]) / "xpmwork")
     real = Real(spec["lib"])
-    debug = os.environ.get("C16_DEBUG")
-    if debug:
-        import faulthandler
+    import faulthandler
 
-        faulthandler.dump_traceback_later(int(debug), exit=True)
     with open(outfile, "w") as out:
         for hist in spec["histories"]:
-            if debug:
-                sys.stderr.write(f"history {hist['id']}\n")
-                sys.stderr.flush()
+            # watchdog: a history that does not end is a harness error (exit 2 of the check), with the stacks
+            faulthandler.dump_traceback_later(int(os.environ.get("C16_WATCHDOG", "150")), exit=True)
+            sys.stderr.write(f"history {hist['id']}\n")
+            sys.stderr.flush()
             res = HistoryRunner(real, spec["lib"], spec["base"], hist).run()
             out.write(json.dumps(res) + "\n")
             out.flush()
